@@ -133,7 +133,7 @@ def facts_dir(cfg):
         lock.close()
 
 
-def _prune_cache(keep, max_entries=12, min_age_s=1800):
+def _prune_cache(keep, max_entries=int(os.environ.get("MB2_CACHE_MAX", "12")), min_age_s=1800):
     """drop the oldest cache entries; never one that was touched in the last 30 minutes (it may belong to a concurrent run)"""
     try:
         now = time.time()
@@ -190,6 +190,15 @@ class Facts:
                 self.impls.append(im)
             self.statics += j["statics"]
             self.roots[c] = j["roots"]
+        self.helper_insts = {}
+        self.std_insts = {}
+        for c in CRATES:
+            for k, v in (self.crates[c].get("std_insts") or {}).items():
+                self.std_insts.setdefault(k, v)
+        self.inline_report = {}
+        if os.environ.get("MB2_NO_INLINE") != "1":
+            from . import inline
+            self.inline_report = inline.apply_to_facts(self)
 
     # -- lookups -----------------------------------------------------------
     def adt_by_name(self, crate, name):
